@@ -110,6 +110,7 @@ static const struct mc_harness *H;
 static int g_argc;
 static char **g_argv;
 static int verbose;
+static int stopfirst;
 static int replay_loose;	/* hand-written replay=1,0,2 without label hashes: only the menu size is checked */
 static int ignore_abnormal;
 static int scan_stderr;
@@ -679,6 +680,8 @@ static void record_violation(void)
 		read_err(v->err, ERRMAX);
 		v->confirmed = 0;
 	}
+	if (stopfirst)
+		atomic_store(&S->stop, 2);      /* stopfirst=1 (seed runs only): one witness is enough, the bound is reported incomplete */
 	unlock();
 }
 
@@ -953,6 +956,7 @@ int mc_main(int argc, char **argv, const struct mc_harness *h)
 	if (nworkers > MAXW)
 		nworkers = MAXW;
 	deadline_s = mc_arg_int("deadline", 0);
+	stopfirst = mc_arg_int("stopfirst", 0);
 	out = mc_arg("out", NULL);
 	replay = mc_arg("replay", NULL);
 	rundir = mc_arg("rundir", "/verif/build/run");
